@@ -51,7 +51,12 @@ def hostile_leaf(rng):
         else:
             rhs = rng.choice(HOSTILE_RHS)
             parts = [rhs]
-        return ev.generic(lhs, *parts)
+        leaf = ev.generic(lhs, *parts)
+        txt = ev.leaf_text(leaf)
+        if len(txt) >= 2 and txt[0] == txt[-1] and txt[0] in '\'"':
+            # a word that starts and ends with the same quote is a quoted string, not a check
+            leaf = ev.generic(lhs, *(parts + ['x']))
+        return leaf
     if r < 0.85:
         x = rng.choice(HOSTILE_RHS + HOSTILE_LHS[:40])
         if x.endswith(')') or '%' in x or not x:
